@@ -211,12 +211,16 @@ class GroupAdditivityScheme(Scheme):
                 if atom.GetProp('Group_name') in self.remaps:
                     atom.SetProp('Group_name',
                                  self.remaps[atom.GetProp('Group_name')][0][1])
-            for group in list(groups.keys()):
-                if group in self.remaps:
-                    n = groups.pop(group)
-                    for remap in self.remaps[group]:
-                        nn = n*remap[0]
-                        groups[remap[1]] += nn
+            # one linear substitution: take out every remapped name first,
+            # so that the result of one rule is not fed into another rule
+            # depending on the order in which the names were met
+            remapped = [(group, groups.pop(group))
+                        for group in list(groups.keys())
+                        if group in self.remaps]
+            for group, n in remapped:
+                for remap in self.remaps[group]:
+                    nn = n*remap[0]
+                    groups[remap[1]] += nn
         return groups
 
     def _AssignDescriptor(self, mol, clean_mol):
@@ -242,12 +246,14 @@ class GroupAdditivityScheme(Scheme):
                 descriptors[descriptor['name']] += len(matches)
         # remaps
         if hasattr(self, 'remaps'):
-            for descriptor in list(descriptors.keys()):
-                if descriptor in self.remaps:
-                    n = descriptors.pop(descriptor)
-                    for remap in self.remaps[descriptor]:
-                        nn = n*remap[0]
-                        descriptors[remap[1]] += nn
+            # one linear substitution (see _AssignGroup)
+            remapped = [(descriptor, descriptors.pop(descriptor))
+                        for descriptor in list(descriptors.keys())
+                        if descriptor in self.remaps]
+            for descriptor, n in remapped:
+                for remap in self.remaps[descriptor]:
+                    nn = n*remap[0]
+                    descriptors[remap[1]] += nn
         return descriptors
 
 
